@@ -559,7 +559,8 @@ func (p *Proc) siteAsserts(ec *ectx, recv *Val, args []Val, call *ast.CallExpr) 
 		if site == "" {
 			site = fmt.Sprintf("%s#%d", calleeText(call), p.callOrdinal(call))
 		}
-		if cl.Param != site {
+		// "callee#*" binds to every call site of that callee text
+		if cl.Param != site && cl.Param != calleeText(call)+"#*" {
 			continue
 		}
 		cec := p.specEc(ec.st, call.Pos())
